@@ -217,6 +217,11 @@ impl<VM: VMBinding> Space<VM> for MallocSpace<VM> {
         "MallocSpace"
     }
 
+    #[cfg(feature = "mmtk_verif")]
+    fn verif_side_metadata_specs(&self) -> (Vec<SideMetadataSpec>, Vec<SideMetadataSpec>) {
+        (self.metadata.global.clone(), self.metadata.local.clone())
+    }
+
     fn estimate_side_meta_pages(&self, data_pages: usize) -> usize {
         self.metadata.calculate_reserved_pages(data_pages)
     }
